@@ -2455,3 +2455,32 @@ simnet_poll_in(int fd)
 }
 
 } // extern "C"
+
+// debugging aid (call from gdb: `call simnet_dump()`): connected sockets and
+// what the pollers know about them
+extern "C" void
+simnet_dump(void)
+{
+	for (int i = 0; i < FD_MAX; i++) {
+		if (N.fds[i].kind != FK_SOCK)
+			continue;
+		Sock *s = (Sock *) N.fds[i].obj;
+		int   fd = FD_BASE + i;
+		fprintf(stderr, "fd %d state %d", fd, s->state);
+		if (s->conn != NULL) {
+			Half &me = s->conn->h[s->side];
+			fprintf(stderr, " conn %d side %d rcv %zu inq %zu eof %d rst %d reported %d peer_closed %d", s->conn->id,
+			    s->side, me.rcv.size(), me.inq.size(), (int) me.eof, (int) me.rst, (int) me.rst_reported,
+			    (int) s->conn->closed[1 - s->side]);
+		}
+		for (int j = 0; j < FD_MAX; j++) {
+			if (N.fds[j].kind != FK_EPOLL)
+				continue;
+			Epoll *e = (Epoll *) N.fds[j].obj;
+			auto   it = e->items.find(fd);
+			if (it != e->items.end())
+				fprintf(stderr, " [ep %d events %x armed %d]", FD_BASE + j, it->second.events, (int) it->second.armed);
+		}
+		fprintf(stderr, "\n");
+	}
+}
